@@ -616,8 +616,10 @@ class Check(common.Check):
             return self.g_reuse(rng)
         if r < 0.945:
             return self.g_dsend(rng)
-        if r < 0.96:
+        if r < 0.955:
             return self.g_bna(rng)
+        if r < 0.96:
+            return self.g_bnag(rng)
         if r < 0.98:
             t = rng.choice([None, float(0.25).hex(), float(0).hex()])
             self.SUBT = rng.choice([None, 0, jf(0.5)]) if t is None else rng.choice([jf(1.5), 3])
@@ -643,6 +645,50 @@ class Check(common.Check):
         else:
             size = MAX_DGRAM + rng.randrange(0, 3000)
         return {'k': 'dsend', 'size': size, 'completion': comp}
+
+    def g_bnag(self, rng):
+        """collecting proxy (send=False): messages, bundles with nested bundles carrying their own latency,
+        sync(latency, elements=[...]), then get_bundle(time)"""
+        ops, i = [], 0
+
+        def el(depth=0):
+            nonlocal i
+            i += 1
+            if depth < 2 and rng.random() < 0.3:                  # a nested bundle with its own latency
+                return [rng.choice([None, jf(0.5), jf(0.25), 1]), *[el(depth + 1) for _ in range(rng.randrange(1, 3))]]
+            return [js(f'/e{i}'), i] + ([js('x' * rng.randrange(9))] if rng.random() < 0.3 else [])
+        for _ in range(rng.randrange(2, 10)):
+            r = rng.random()
+            if r < 0.4:
+                i += 1
+                ops.append(['msg', [js(f'/m{i}'), i]])
+            elif r < 0.6:
+                ops.append(['bundle', [el() for _ in range(rng.randrange(0, 4))]])
+            elif r < 0.68:
+                ops.append(['clumped', [el() for _ in range(rng.randrange(0, 3))]])
+            elif r < 0.72:
+                ops.append(['status'])
+            else:
+                ops.append(['sync', rng.choice([None, None, jf(0.5), jf(0.125)]),
+                            rng.choice([None, [el() for _ in range(rng.randrange(0, 3))]])])
+        return {'k': 'bnag', 'ops': ops, 'time': rng.choice([None, jf(0.25)])}
+
+    @staticmethod
+    def expect_bnag(c):
+        """what the proxy holds: the elements as given (nesting, latencies, order), cut at every sync —
+        the sync's own elements close the bundle they were given with, the sync latency times the next one"""
+        res, curr = [], [c['time']]
+        for op in c['ops']:
+            if op[0] == 'msg':
+                curr.append(op[1])
+            elif op[0] in ('bundle', 'clumped'):
+                curr.extend(op[1])
+            elif op[0] == 'sync':
+                curr.extend(op[2] or [])
+                res.append(curr)
+                curr = [op[1]]
+        res.append(curr)
+        return res
 
     def g_bna(self, rng):
         """BundleNetAddr (server.bind()): messages, sync, more messages, exit"""
@@ -771,6 +817,11 @@ class Check(common.Check):
                 lines.append(f'dsend B{hx} {tok(c["completion"])}')
                 lines.append(f'msg 0/1 0 L3 S2f645f72656376 B{hx} {tok(c["completion"])}')
                 idx.append(2)
+            elif k == 'bnag':
+                exp = self.expect_bnag(c)
+                for bd in exp:
+                    lines.append('bndl 0/1 0 ' + tok(bd))
+                idx.append(len(exp))
             elif k == 'bna':
                 lines.append('bna reset')
                 for op in c['ops']:
@@ -816,6 +867,8 @@ class Check(common.Check):
                     res.append({'r': 'ok load'})
                 else:
                     res.append({'r': o[0]})
+            elif k == 'bnag':
+                res.append({'hex': list(o)})
             elif k == 'bna':
                 res.append({'ops': [x.rstrip() for x in o[1:]]})
             elif k == 'reuse':
@@ -834,7 +887,7 @@ class Check(common.Check):
         return res
 
     KEYS = {'msg': ('r', 'dec', 'size'), 'bndl': ('r', 'dec', 'size'), 'dec': ('dec',), 'clump': ('r',),
-            'sendc': ('r',), 'sync': ('r',), 'reuse': ('r',), 'dsend': ('r',), 'bna': ('ops',)}
+            'sendc': ('r',), 'sync': ('r',), 'reuse': ('r',), 'dsend': ('r',), 'bna': ('ops',), 'bnag': ('hex',)}
 
     def compare(self, case, io, mo):
         diff = {}
@@ -859,6 +912,12 @@ class Check(common.Check):
         for key in ('r', 'dec', 'size'):
             if o.get(key) == 'HANG':
                 return {'what': f'{key}: the call did not return within 20 s', 'signature': 'c06:hang'}
+        if k == 'bnag':
+            exp = self.expect_bnag(c)
+            if o.get('r') == 'ok' and o.get('struct') != exp:
+                return {'what': f'the collecting proxy holds {o.get("struct")!r:.400}; given, in order, with nesting and '
+                                f'latencies: {exp!r:.400}', 'signature': 'c06:proxy-structure'}
+            return None
         if k in ('msg', 'bndl'):
             return self.oracle_packet(c, o)
         if k == 'clump':
@@ -1060,6 +1119,8 @@ class Check(common.Check):
             return o['r'].startswith('ok')
         if c['k'] == 'bna':
             return o['r'] == 'ok' and len(o.get('dgrams', [])) >= 2
+        if c['k'] == 'bnag':
+            return o['r'] == 'ok' and len(o.get('hex', [])) >= 2
         return o.get('dec', '').startswith('ok ')
 
     def histogram(self, cases, outs):
@@ -1089,7 +1150,7 @@ class Check(common.Check):
             head = c['args'][0]
             rest = common.shrink_list(c['args'][1:], lambda l: fails(dict(c, args=[head] + l)))
             return dict(c, args=[head] + rest)
-        if c['k'] == 'bna' and len(c['ops']) > 1:
+        if c['k'] in ('bna', 'bnag') and len(c['ops']) > 1:
             return dict(c, ops=common.shrink_list(c['ops'], lambda l: fails(dict(c, ops=l))))
         if c['k'] in ('clump', 'sendc', 'sync') or (c['k'] == 'reuse' and c['method'] != 'msg') and len(c['els']) > 1:
             return dict(c, els=common.shrink_list(c['els'], lambda l: fails(dict(c, els=l))))
